@@ -486,6 +486,87 @@ def run(db, chk):
                    where=st.ploc, function=st.bn, construct="thomas(%d)" % n, detail="; ".join(bad[:2])[:300],
                    extra={"unit": uname})
 
+        # the end-to-end cross-checks expand the whole computation: they are meaningful (and tractable: the
+        # cancellations of the Thomas recursion are syntactic) only when the solver itself is right
+        solver_ok = not any((not o["ok"]) and o["rule"] == "C14-D2a" for o in chk.obligations)
+        if solver_ok:
+            # ------------------------------------------------------------------ D5: through the constructor
+            er = fns["erode"][0]
+            ctors = [f for f in unit.fns.values() if f.cls == ADI and f.is_ctor and len(f.params) >= 2]
+            arec = [r for r in unit.records if r["bn"] == ADI]
+            if not ctors or not arec:
+                raise AnalysisBroken("C14: diffusion_adi_eroder constructors / record not found in %s" % uname)
+            for ctor in ctors:
+                ktype = ctor.type(ctor.params[1]["t"])
+                is_array = "xt::" in ktype
+                for (nr, nc) in ((3, 4), (4, 4)):
+                    n_sc += 1
+                    E = fresh("e", (nr, nc), 1.0)
+                    karr = sym_array("k", (nr, nc), lambda r, c: 0.2 + 0.03 * r + 0.05 * c)
+                    Ksc = Dual.sym("K", 0.3)
+                    it = Interp(ADIWorld([dy, dx], [nr, nc]), max_steps=5000000)
+                    bad = []
+                    res = None
+                    try:
+                        this = it.new_obj(ctor, arec[0])
+                        this.fields["m_grid"] = Sym("grid", "g")
+                        it.call_fn(ctor, this, [Sym("grid", "g"), karr.copy() if is_array else Ksc, None])
+                        res = it.rv(it.call_fn(er, this, [E, dt]))
+                    except (ThrowEx, UninitUse, ShapeMismatch, ndsym.IndexOutside) as ex:
+                        bad.append("%s" % ex)
+                    if res is not None:
+                        FR, FC = this.fields["m_factors_row"], this.fields["m_factors_col"]
+                        ref = reference_step(lambda r, c: E.get((r, c)), lambda j, r, c: FR.get((j, r, c)),
+                                             lambda j, r, c: FC.get((j, r, c)), nr, nc, dt)
+                        for r in range(nr):
+                            for c in range(nc):
+                                got = res.get((r, c))
+                                border = r in (0, nr - 1) or c in (0, nc - 1)
+                                want = Dual.of(0) if border else B("-", E.get((r, c)), ref[(r, c)])
+                                if isinstance(got, Uninit) or not same(got, want):
+                                    bad.append("erosion(%d,%d) differs from the directly solved scheme (the grid has interior "
+                                               "fixed-value / fixed-gradient nodes, which must not matter)" % (r, c))
+                    chk.ob("C14-D5", "[%s] constructed with a %s diffusivity on a %dx%d grid whose interior holds fixed-value "
+                           "and fixed-gradient nodes: erode() end to end" % (uname, "array" if is_array else "scalar", nr, nc),
+                           not bad, where=ctor.ploc, function=ctor.bn, construct="ctor-end-to-end",
+                           detail="; ".join(bad[:2])[:400], extra={"unit": uname})
+
+            # ------------------------------------------------------------------ D3: end to end
+            for (nr, nc) in ((3, 3), (3, 4), (4, 3)) + (((4, 4), (3, 5)) if chk.tier == "thorough" else ()):
+                n_sc += 1
+                karr = sym_array("k", (nr, nc), lambda r, c: 0.2 + 0.03 * r + 0.05 * c)
+                E = fresh("e", (nr, nc), 1.0)
+                this = make_this(nr, nc, NDArr((0,), None, "m_factors_row"), NDArr((0,), None, "m_factors_col"),
+                                 k_scalar=Dual.sym("K", 0.3), k_array=karr)
+                it = Interp(ADIWorld([dy, dx], [nr, nc]), max_steps=5000000)
+                bad = []
+                res = None
+                try:
+                    it.call_fn(fns["set_factors"][0], this, [])
+                    res = it.rv(it.call_fn(er, this, [E, dt]))
+                except (ThrowEx, UninitUse, ShapeMismatch) as ex:
+                    bad.append("%s" % ex)
+                if res is not None:
+                    FR, FC = this.fields["m_factors_row"], this.fields["m_factors_col"]
+                    ref = reference_step(lambda r, c: E.get((r, c)), lambda j, r, c: FR.get((j, r, c)),
+                                         lambda j, r, c: FC.get((j, r, c)), nr, nc, dt)
+                    for r in range(nr):
+                        for c in range(nc):
+                            got = res.get((r, c))
+                            border = r in (0, nr - 1) or c in (0, nc - 1)
+                            want = Dual.of(0) if border else B("-", E.get((r, c)), ref[(r, c)])
+                            if isinstance(got, Uninit) or not same(got, want):
+                                bad.append("erosion(%d,%d) differs from the directly solved scheme%s" % (
+                                    r, c, " (border must be zero)" if border else ""))
+                            elif not border:
+                                # linearity: the value is homogeneous of degree one in the elevation symbols
+                                g = Dual.of(got)
+                                if any(sum(1 for v in mono if v.startswith("e_")) != 1 for mono in g.num.terms) or \
+                                        any(v.startswith("e_") for f in g.dfac for mono in f.terms for v in mono):
+                                    bad.append("erosion(%d,%d) is not linear in the elevation" % (r, c))
+                chk.ob("C14-D3", "[%s] set_factors + erode() end to end against an independent elimination on %dx%d"
+                       % (uname, nr, nc), not bad, where=er.ploc, function=er.bn, construct="end-to-end",
+                       detail="; ".join(bad[:3])[:400], extra={"unit": uname})
         # ------------------------------------------------------------------ D2b: line sweep
         for sweep in fns["solve_adi_row"]:
             for (nr, nc, holes) in ((3, 3, False), (4, 5, False), (4, 5, True)):
@@ -608,86 +689,4 @@ def run(db, chk):
             chk.ob("C14-D2c", "[%s] erode() composition on %dx%d" % (uname, nr, nc), not bad, where=er.ploc,
                    function=er.bn, construct="compose", detail="; ".join(bad[:3])[:400], extra={"unit": uname})
 
-        # the end-to-end cross-checks expand the whole computation: they are meaningful (and tractable: the
-        # cancellations of the Thomas recursion are syntactic) only when the solver itself is right
-        solver_ok = not any((not o["ok"]) and o["rule"] == "C14-D2a" for o in chk.obligations)
-        if not solver_ok:
-            continue
-        # ------------------------------------------------------------------ D5: through the constructor
-        er = fns["erode"][0]
-        ctors = [f for f in unit.fns.values() if f.cls == ADI and f.is_ctor and len(f.params) >= 2]
-        arec = [r for r in unit.records if r["bn"] == ADI]
-        if not ctors or not arec:
-            raise AnalysisBroken("C14: diffusion_adi_eroder constructors / record not found in %s" % uname)
-        for ctor in ctors:
-            ktype = ctor.type(ctor.params[1]["t"])
-            is_array = "xt::" in ktype
-            for (nr, nc) in ((3, 4), (4, 4)):
-                n_sc += 1
-                E = fresh("e", (nr, nc), 1.0)
-                karr = sym_array("k", (nr, nc), lambda r, c: 0.2 + 0.03 * r + 0.05 * c)
-                Ksc = Dual.sym("K", 0.3)
-                it = Interp(ADIWorld([dy, dx], [nr, nc]), max_steps=5000000)
-                bad = []
-                res = None
-                try:
-                    this = it.new_obj(ctor, arec[0])
-                    this.fields["m_grid"] = Sym("grid", "g")
-                    it.call_fn(ctor, this, [Sym("grid", "g"), karr.copy() if is_array else Ksc, None])
-                    res = it.rv(it.call_fn(er, this, [E, dt]))
-                except (ThrowEx, UninitUse, ShapeMismatch, ndsym.IndexOutside) as ex:
-                    bad.append("%s" % ex)
-                if res is not None:
-                    FR, FC = this.fields["m_factors_row"], this.fields["m_factors_col"]
-                    ref = reference_step(lambda r, c: E.get((r, c)), lambda j, r, c: FR.get((j, r, c)),
-                                         lambda j, r, c: FC.get((j, r, c)), nr, nc, dt)
-                    for r in range(nr):
-                        for c in range(nc):
-                            got = res.get((r, c))
-                            border = r in (0, nr - 1) or c in (0, nc - 1)
-                            want = Dual.of(0) if border else B("-", E.get((r, c)), ref[(r, c)])
-                            if isinstance(got, Uninit) or not same(got, want):
-                                bad.append("erosion(%d,%d) differs from the directly solved scheme (the grid has interior "
-                                           "fixed-value / fixed-gradient nodes, which must not matter)" % (r, c))
-                chk.ob("C14-D5", "[%s] constructed with a %s diffusivity on a %dx%d grid whose interior holds fixed-value "
-                       "and fixed-gradient nodes: erode() end to end" % (uname, "array" if is_array else "scalar", nr, nc),
-                       not bad, where=ctor.ploc, function=ctor.bn, construct="ctor-end-to-end",
-                       detail="; ".join(bad[:2])[:400], extra={"unit": uname})
-
-        # ------------------------------------------------------------------ D3: end to end
-        for (nr, nc) in ((3, 3), (3, 4), (4, 3)) + (((4, 4), (3, 5)) if chk.tier == "thorough" else ()):
-            n_sc += 1
-            karr = sym_array("k", (nr, nc), lambda r, c: 0.2 + 0.03 * r + 0.05 * c)
-            E = fresh("e", (nr, nc), 1.0)
-            this = make_this(nr, nc, NDArr((0,), None, "m_factors_row"), NDArr((0,), None, "m_factors_col"),
-                             k_scalar=Dual.sym("K", 0.3), k_array=karr)
-            it = Interp(ADIWorld([dy, dx], [nr, nc]), max_steps=5000000)
-            bad = []
-            res = None
-            try:
-                it.call_fn(fns["set_factors"][0], this, [])
-                res = it.rv(it.call_fn(er, this, [E, dt]))
-            except (ThrowEx, UninitUse, ShapeMismatch) as ex:
-                bad.append("%s" % ex)
-            if res is not None:
-                FR, FC = this.fields["m_factors_row"], this.fields["m_factors_col"]
-                ref = reference_step(lambda r, c: E.get((r, c)), lambda j, r, c: FR.get((j, r, c)),
-                                     lambda j, r, c: FC.get((j, r, c)), nr, nc, dt)
-                for r in range(nr):
-                    for c in range(nc):
-                        got = res.get((r, c))
-                        border = r in (0, nr - 1) or c in (0, nc - 1)
-                        want = Dual.of(0) if border else B("-", E.get((r, c)), ref[(r, c)])
-                        if isinstance(got, Uninit) or not same(got, want):
-                            bad.append("erosion(%d,%d) differs from the directly solved scheme%s" % (
-                                r, c, " (border must be zero)" if border else ""))
-                        elif not border:
-                            # linearity: the value is homogeneous of degree one in the elevation symbols
-                            g = Dual.of(got)
-                            if any(sum(1 for v in mono if v.startswith("e_")) != 1 for mono in g.num.terms) or \
-                                    any(v.startswith("e_") for f in g.dfac for mono in f.terms for v in mono):
-                                bad.append("erosion(%d,%d) is not linear in the elevation" % (r, c))
-            chk.ob("C14-D3", "[%s] set_factors + erode() end to end against an independent elimination on %dx%d"
-                   % (uname, nr, nc), not bad, where=er.ploc, function=er.bn, construct="end-to-end",
-                   detail="; ".join(bad[:3])[:400], extra={"unit": uname})
     chk.count_scenarios(n_sc, True)
